@@ -17,7 +17,7 @@ Record sproof := mkProof { sp_n : Z; sp_used : bytes; sp_data : bytes }.
 
 Definition SJ_MAX_N_INPUTS : Z := 256.
 Definition SJ_MAX_USED_INPUTS : Z := 256.
-Definition SJ_DATA_LEN : nat := 8224.   (* 32 * (1 + 256) *)
+Definition SJ_DATA_LEN : nat := Z.to_nat 8224.   (* 32 * (1 + 256) *)
 
 (* zero-extend / truncate to exactly k bytes (fixed-size C arrays) *)
 Definition pad_to (k : nat) (l : bytes) : bytes := firstn k (l ++ zeros k).
@@ -107,8 +107,8 @@ Definition bit_set (used : bytes) (i : Z) : bytes :=
   upd (Z.to_nat (i / 8)) (Z.lor (nth (Z.to_nat (i / 8)) used 0) (2 ^ (i mod 8))) used.
 
 (* ------------------------------------------------------------------ initialize *)
-Definition CSPRNG_FUEL : nat := 4096.
-Definition PICK_FUEL : nat := 65536.
+Definition CSPRNG_FUEL : nat := Z.to_nat 4096.
+Definition PICK_FUEL : nat := Z.to_nat 65536.
 
 (* inner while(1): draw until an index not yet used comes; every draw that hits the output tag
    records it (found), also when the index was already used *)
@@ -236,7 +236,7 @@ Fixpoint load_scalars (chunks : list bytes) : option (list Z) :=
     match load_scalars rest with None => None | Some l => Some (s :: l) end
   end.
 Definition data_chunks (data : bytes) (k : nat) : list bytes :=
-  map (fun i => firstn 32 (skipn (32 + 32 * i) data)) (seq 0 k).
+  map (fun i => firstn 32 (skipn (32 + 32 * i)%nat data)) (seq 0 k).
 
 (* secp256k1_surjectionproof_verify *)
 Definition verify (pr : sproof) (in_tags : list bytes) (out_tag : bytes) : bool :=
